@@ -29,12 +29,18 @@ SEEDS = [
     "start: p ';' q NEWLINE\np: '<' (a=NAME ',' b=NAME { foo(a) }) '>'\nq: '<' (a=NAME ',' b=NAME { foo(b) }) '>'\n",
     "start: (NUMBER) (n=NUMBER { foo(n) }) NEWLINE\n",
     "start: (NAME | NUMBER) (x=NAME { foo(x) } | y=NUMBER { foo(y, y) }) NEWLINE\n",
+    # look-alike gathers / loops whose elements differ only in their action
+    "start: 'v' a=','.(x=NAME '=' y=NUMBER { foo(x) })+ NEWLINE | 'w' b=','.(x=NAME '=' y=NUMBER { foo(y) })+ NEWLINE\n",
+    "start: p ';' q NEWLINE\np: (x=NAME y=NUMBER { foo(x) })+\nq: (x=NAME y=NUMBER { foo(y) })+\n",
+    # a negative lookahead over a repetition (a failing x+ is not reported as None)
+    "start: !(NUMBER+) n=NAME NEWLINE | k=NUMBER+ NEWLINE\n",
+    "start: !(NAME NUMBER)* NUMBER NEWLINE | &(NAME+) NAME+ NEWLINE\n",
     # a forced item over a group that can match nothing (the inner call carries a trailing comma)
     "start: NAME &&(NUMBER*) NEWLINE\n",
     "start: &&(NAME?) NUMBER NEWLINE\n",
     "start: &&([NAME]) NEWLINE\n",
 ]
-EXTRA_INPUTS = ["a c\n", "a b\n", "a\n", "< p , q > ; < r , s >\n", "1 2\n", "x 1\n", "x y\n", "1 x\n"]
+EXTRA_INPUTS = ["v x = 1 , y = 2\n", "w x = 1 , y = 2\n", "x 1 y 2 ; z 3\n", "x\n", "1 2\n", "x y\n", "a c\n", "a b\n", "a\n", "< p , q > ; < r , s >\n", "1 2\n", "x 1\n", "x y\n", "1 x\n"]
 KF_LOOKAHEAD_FORCED = {"grammar": "start: &(&&'a') 'a' 'b'\n", "input": "a b\n"}
 
 
